@@ -5,6 +5,8 @@ package ice
 
 import "sync"
 
+import "github.com/pion/ice/v4/internal/verifhook"
+
 // OnConnectionStateChange sets a handler that is fired when the connection state changes.
 func (a *Agent) OnConnectionStateChange(f func(ConnectionState)) error {
 	a.onConnectionStateChangeHdlr.Store(f)
@@ -84,6 +86,7 @@ func (h *handlerNotifier) Close(graceful bool) {
 	}
 	close(h.done)
 	h.Unlock()
+	verifhook.Yield("notifier.Close.afterDone")
 }
 
 func (h *handlerNotifier) EnqueueConnectionState(state ConnectionState) {
@@ -109,6 +112,7 @@ func (h *handlerNotifier) EnqueueConnectionState(state ConnectionState) {
 			notification := h.connectionStates[0]
 			h.connectionStates = h.connectionStates[1:]
 			h.Unlock()
+			verifhook.Yield("notifier.beforeHandler")
 			h.connectionStateFunc(notification)
 		}
 	}
@@ -144,6 +148,7 @@ func (h *handlerNotifier) EnqueueCandidate(cand Candidate) {
 			notification := h.candidates[0]
 			h.candidates = h.candidates[1:]
 			h.Unlock()
+			verifhook.Yield("notifier.beforeHandler")
 			h.candidateFunc(notification)
 		}
 	}
@@ -179,6 +184,7 @@ func (h *handlerNotifier) EnqueueSelectedCandidatePair(pair *CandidatePair) {
 			notification := h.selectedCandidatePairs[0]
 			h.selectedCandidatePairs = h.selectedCandidatePairs[1:]
 			h.Unlock()
+			verifhook.Yield("notifier.beforeHandler")
 			h.candidatePairFunc(notification)
 		}
 	}
